@@ -1,0 +1,375 @@
+//! Verification hooks. Compiled only with `--cfg dandavison_delta_verif`; without that
+//! cfg this module does not exist and nothing refers to it.
+//!
+//! H1: an in-process request loop ("driver") serving JSON requests on two dedicated file
+//!     descriptors, so that a harness can build `Config`s and run `delta()` many times per
+//!     process while fd 0/1/2 keep their normal meaning (pipe or pty).
+//! H2: `boundary()` records (bytes handed to the writer so far, snapshot of every mutable
+//!     field of StateMachine/Painter) at each line boundary while a trace is active.
+//! H4: `sched_point()` forces a total order of named points across threads when
+//!     DELTA_VERIF_SCHED is set (used to replay schedules of the calling-process protocol
+//!     on the real binary).
+
+use std::cell::{Cell, RefCell};
+use std::collections::HashMap;
+use std::ffi::OsString;
+use std::io::{BufRead, BufReader, Write};
+use std::os::unix::io::FromRawFd;
+use std::sync::{Condvar, Mutex};
+
+use bytelines::ByteLinesReader;
+use serde_json::{json, Value};
+
+use crate::cli;
+use crate::config::Config;
+use crate::delta::StateMachine;
+use crate::env::DeltaEnv;
+use crate::handlers::merge_conflict::MergeConflictCommit;
+use crate::utils;
+use crate::utils::process::CallingProcess;
+
+thread_local! {
+    static WRITTEN: Cell<usize> = const { Cell::new(0) };
+    static TRACE: RefCell<Option<Vec<(usize, String)>>> = const { RefCell::new(None) };
+    static PANIC_MSG: RefCell<Option<String>> = const { RefCell::new(None) };
+    static TRACE_FROM: Cell<usize> = const { Cell::new(0) };
+}
+
+struct CountingWriter {
+    buf: Vec<u8>,
+}
+
+impl Write for CountingWriter {
+    fn write(&mut self, data: &[u8]) -> std::io::Result<usize> {
+        self.buf.extend_from_slice(data);
+        WRITTEN.with(|w| w.set(self.buf.len()));
+        Ok(data.len())
+    }
+    fn flush(&mut self) -> std::io::Result<()> {
+        Ok(())
+    }
+}
+
+fn snapshot(sm: &StateMachine) -> String {
+    let p = &sm.painter;
+    let mut colors: Vec<_> = sm.blame_key_colors.iter().collect();
+    colors.sort();
+    let lnd = p.line_numbers_data.as_ref().map(|d| {
+        format!(
+            "{:?}/{:?}/{}/{:?}",
+            d.line_number[crate::features::side_by_side::Left],
+            d.line_number[crate::features::side_by_side::Right],
+            d.hunk_max_line_number_width,
+            d.plus_file
+        )
+    });
+    format!(
+        "state={:?}|source={:?}|mf={:?}|pf={:?}|mfe={:?}|pfe={:?}|dl={:?}|mi={:?}|cfp={:?}|hfp={:?}|mlc={:?}|bkc={:?}|ml={:?}|pl={:?}|ob={:?}|syn={:?}|hl={}|lnd={:?}|mco={:?}|mca={:?}|mct={:?}|mcn={:?}/{:?}/{:?}",
+        sm.state,
+        sm.source,
+        sm.minus_file,
+        sm.plus_file,
+        sm.minus_file_event,
+        sm.plus_file_event,
+        sm.diff_line,
+        sm.mode_info,
+        sm.current_file_pair,
+        sm.handled_diff_header_header_line_file_pair,
+        sm.minus_line_counter,
+        colors,
+        p.minus_lines,
+        p.plus_lines,
+        p.output_buffer,
+        p.syntax.name,
+        p.highlighter.is_some(),
+        lnd,
+        p.merge_conflict_lines[MergeConflictCommit::Ours],
+        p.merge_conflict_lines[MergeConflictCommit::Ancestral],
+        p.merge_conflict_lines[MergeConflictCommit::Theirs],
+        p.merge_conflict_commit_names[MergeConflictCommit::Ours],
+        p.merge_conflict_commit_names[MergeConflictCommit::Ancestral],
+        p.merge_conflict_commit_names[MergeConflictCommit::Theirs],
+    )
+}
+
+/// H2. Called at every line boundary of `StateMachine::consume`.
+pub fn boundary(sm: &StateMachine) {
+    TRACE.with(|t| {
+        if let Some(trace) = t.borrow_mut().as_mut() {
+            // boundaries before TRACE_FROM record the offset only
+            let snap = if trace.len() >= TRACE_FROM.with(|f| f.get()) {
+                snapshot(sm)
+            } else {
+                String::new()
+            };
+            trace.push((WRITTEN.with(|w| w.get()), snap));
+        }
+    });
+}
+
+// ---------------------------------------------------------------------------------------------
+// H4: forced ordering of named points.
+
+struct Sched {
+    order: Vec<String>,
+    next: usize,
+}
+
+lazy_static::lazy_static! {
+    static ref SCHED: (Mutex<Option<Sched>>, Condvar) = {
+        let s = std::env::var("DELTA_VERIF_SCHED").ok().map(|v| Sched {
+            order: v.split(',').filter(|s| !s.is_empty()).map(|s| s.to_string()).collect(),
+            next: 0,
+        });
+        (Mutex::new(s), Condvar::new())
+    };
+}
+
+/// Blocks until every point listed before the first not-yet-passed occurrence of `name` in
+/// DELTA_VERIF_SCHED has been passed. No-op when the variable is unset, or when `name` does
+/// not occur in the remainder of the order.
+pub fn sched_point(name: &str) {
+    let (m, cv) = &*SCHED;
+    let mut g = m.lock().unwrap();
+    loop {
+        let s = match g.as_mut() {
+            None => return,
+            Some(s) => s,
+        };
+        if s.next >= s.order.len() {
+            return;
+        }
+        if s.order[s.next] == name {
+            s.next += 1;
+            if let Ok(path) = std::env::var("DELTA_VERIF_SCHED_LOG") {
+                if let Ok(mut f) = std::fs::OpenOptions::new().append(true).create(true).open(path) {
+                    let _ = writeln!(f, "{name}");
+                }
+            }
+            cv.notify_all();
+            return;
+        }
+        if !s.order[s.next..].iter().any(|p| p == name) {
+            return;
+        }
+        let (g2, timeout) = cv
+            .wait_timeout(g, std::time::Duration::from_secs(10))
+            .unwrap();
+        g = g2;
+        if timeout.timed_out() {
+            eprintln!("verif sched_point: infeasible order, stuck waiting at {name}");
+            std::process::exit(97);
+        }
+    }
+}
+
+// ---------------------------------------------------------------------------------------------
+// H1: the driver.
+
+pub fn driver_requested() -> bool {
+    std::env::var_os("DELTA_VERIF_DRIVER").is_some()
+}
+
+fn l1_to_bytes(s: &str) -> Vec<u8> {
+    s.chars().map(|c| c as u32 as u8).collect()
+}
+
+fn bytes_to_l1(b: &[u8]) -> String {
+    b.iter().map(|&c| c as char).collect()
+}
+
+fn opt_str(v: &Value, key: &str) -> Option<String> {
+    v.get(key).and_then(|x| x.as_str()).map(|s| s.to_string())
+}
+
+fn make_env(v: &Value) -> DeltaEnv {
+    let null = Value::Null;
+    let e = v.get("env").unwrap_or(&null);
+    DeltaEnv {
+        bat_theme: opt_str(e, "bat_theme"),
+        colorterm: opt_str(e, "colorterm"),
+        current_dir: opt_str(e, "cwd").map(std::path::PathBuf::from),
+        experimental_max_line_distance_for_naively_paired_lines: opt_str(e, "naive_distance"),
+        features: opt_str(e, "features"),
+        git_config_parameters: opt_str(e, "git_config_parameters"),
+        git_prefix: opt_str(e, "git_prefix"),
+        hostname: opt_str(e, "hostname"),
+        navigate: opt_str(e, "navigate"),
+        pagers: (opt_str(e, "delta_pager"), opt_str(e, "pager")),
+    }
+}
+
+struct Entry {
+    config: Box<Config>,
+    features: Option<String>,
+}
+
+fn render_one(config: &Config, input: &[u8], trace: bool, trace_from: usize) -> Value {
+    WRITTEN.with(|w| w.set(0));
+    TRACE_FROM.with(|f| f.set(trace_from));
+    TRACE.with(|t| *t.borrow_mut() = if trace { Some(Vec::new()) } else { None });
+    PANIC_MSG.with(|p| *p.borrow_mut() = None);
+    let mut writer = CountingWriter { buf: Vec::new() };
+    let res = std::panic::catch_unwind(std::panic::AssertUnwindSafe(|| {
+        crate::delta::delta(input.byte_lines(), &mut writer, config)
+    }));
+    let tr = TRACE.with(|t| t.borrow_mut().take());
+    let mut out = json!({ "out": bytes_to_l1(&writer.buf) });
+    match res {
+        Ok(Ok(())) => {}
+        Ok(Err(e)) => {
+            out["ioerr"] = json!(format!("{e}"));
+        }
+        Err(_) => {
+            let msg = PANIC_MSG
+                .with(|p| p.borrow_mut().take())
+                .unwrap_or_else(|| "panic".to_string());
+            out["panic"] = json!(msg);
+        }
+    }
+    if let Some(tr) = tr {
+        out["trace"] = json!(tr);
+    }
+    out
+}
+
+pub fn run_driver() -> ! {
+    let spec = std::env::var("DELTA_VERIF_DRIVER").unwrap();
+    let mut it = spec.split(',');
+    let in_fd: i32 = it.next().unwrap().parse().unwrap();
+    let out_fd: i32 = it.next().unwrap().parse().unwrap();
+    let inp = unsafe { std::fs::File::from_raw_fd(in_fd) };
+    let mut outp = unsafe { std::fs::File::from_raw_fd(out_fd) };
+    let mut reader = BufReader::with_capacity(1 << 20, inp);
+
+    std::panic::set_hook(Box::new(|info| {
+        let msg = format!("{info}");
+        PANIC_MSG.with(|p| *p.borrow_mut() = Some(msg));
+    }));
+
+    let mut configs: HashMap<String, Entry> = HashMap::new();
+    let mut line = String::new();
+    loop {
+        line.clear();
+        match reader.read_line(&mut line) {
+            Ok(0) | Err(_) => std::process::exit(0),
+            Ok(_) => {}
+        }
+        let req: Value = match serde_json::from_str(&line) {
+            Ok(v) => v,
+            Err(e) => {
+                let _ = writeln!(outp, "{}", json!({"error": format!("bad request: {e}")}));
+                continue;
+            }
+        };
+        let op = req.get("op").and_then(|x| x.as_str()).unwrap_or("");
+        let resp = match op {
+            "hello" => {
+                let caller = match req.get("caller").and_then(|c| c.as_array()) {
+                    Some(args) => {
+                        let args: Vec<String> = args
+                            .iter()
+                            .map(|a| a.as_str().unwrap_or("").to_string())
+                            .collect();
+                        match utils::process::describe_calling_process(&args) {
+                            utils::process::ProcessArgs::Args(c) => c,
+                            _ => CallingProcess::None,
+                        }
+                    }
+                    None => CallingProcess::None,
+                };
+                let dbg = format!("{caller:?}");
+                utils::process::verif_set_caller(caller);
+                json!({"ok": true, "caller": dbg})
+            }
+            "mkconfig" => {
+                let id = opt_str(&req, "id").unwrap_or_default();
+                let mut args: Vec<OsString> = vec![OsString::from("delta")];
+                if let Some(a) = req.get("args").and_then(|a| a.as_array()) {
+                    for x in a {
+                        args.push(OsString::from(x.as_str().unwrap_or("")));
+                    }
+                }
+                let env = make_env(&req);
+                let assets = utils::bat::assets::load_highlighting_assets();
+                let r = std::panic::catch_unwind(std::panic::AssertUnwindSafe(|| {
+                    let (call, opt) = cli::Opt::from_args_and_git_config(args, &env, assets);
+                    match (call, opt) {
+                        (cli::Call::Delta(_), Some(opt)) => {
+                            let features = opt.features.clone();
+                            Ok((Config::from(opt), features))
+                        }
+                        _ => Err("not a plain delta call".to_string()),
+                    }
+                }));
+                match r {
+                    Ok(Ok((config, features))) => {
+                        configs.insert(
+                            id,
+                            Entry {
+                                config: Box::new(config),
+                                features: features.clone(),
+                            },
+                        );
+                        json!({"ok": true, "features": features})
+                    }
+                    Ok(Err(e)) => json!({"ok": false, "error": e}),
+                    Err(_) => {
+                        let msg = PANIC_MSG
+                            .with(|p| p.borrow_mut().take())
+                            .unwrap_or_else(|| "panic".to_string());
+                        json!({"ok": false, "panic": msg})
+                    }
+                }
+            }
+            "drop" => {
+                let id = opt_str(&req, "id").unwrap_or_default();
+                configs.remove(&id);
+                json!({"ok": true})
+            }
+            "render" => {
+                let id = opt_str(&req, "id").unwrap_or_default();
+                let trace = req.get("trace").and_then(|t| t.as_bool()).unwrap_or(false);
+                let trace_from = req.get("trace_from").and_then(|t| t.as_u64()).unwrap_or(0) as usize;
+                match configs.get(&id) {
+                    None => json!({"error": "no such config"}),
+                    Some(entry) => {
+                        let mut results = Vec::new();
+                        if let Some(inputs) = req.get("inputs").and_then(|a| a.as_array()) {
+                            for inp in inputs {
+                                let bytes = l1_to_bytes(inp.as_str().unwrap_or(""));
+                                results.push(render_one(&entry.config, &bytes, trace, trace_from));
+                            }
+                        }
+                        json!({ "results": results })
+                    }
+                }
+            }
+            "showconfig" => {
+                let id = opt_str(&req, "id").unwrap_or_default();
+                match configs.get(&id) {
+                    None => json!({"error": "no such config"}),
+                    Some(entry) => {
+                        let mut buf: Vec<u8> = Vec::new();
+                        let r = std::panic::catch_unwind(std::panic::AssertUnwindSafe(|| {
+                            crate::subcommands::show_config::show_config(&entry.config, &mut buf)
+                        }));
+                        match r {
+                            Ok(_) => json!({"out": bytes_to_l1(&buf), "features": entry.features}),
+                            Err(_) => json!({"panic": PANIC_MSG.with(|p| p.borrow_mut().take())}),
+                        }
+                    }
+                }
+            }
+            "width" => {
+                let s = opt_str(&req, "s").unwrap_or_default();
+                json!({"width": crate::ansi::measure_text_width(&s)})
+            }
+            "quit" => std::process::exit(0),
+            _ => json!({"error": format!("unknown op {op}")}),
+        };
+        if writeln!(outp, "{resp}").is_err() {
+            std::process::exit(0);
+        }
+    }
+}
